@@ -1,6 +1,7 @@
 package worker
 
 import (
+	"os"
 	"bytes"
 	"encoding/json"
 	"errors"
@@ -585,11 +586,56 @@ func runFamily(f *plan.StreamFamily) (viols []plan.Violation, cases int64, sampl
 			}
 			faultFree(cutsToDel(cuts, sz%2 == 0, sz%5 == 0))
 		}
+	case "chunks":
+		// large documents: piece sizes cycle through Cuts until the end of the
+		// input (the stream buffer is grown and refilled many times)
+		var del []plan.Deliver
+		for pos, k := 0, 0; pos < n && len(f.Cuts) > 0 && len(del) < 1<<16; k++ {
+			sz := f.Cuts[k%len(f.Cuts)]
+			if sz < 1 {
+				sz = 1
+			}
+			del = append(del, plan.Deliver{N: sz})
+			pos += sz
+		}
+		got := c.run(del)
+		if os.Getenv("VERIF_DEBUG_CHUNKS") != "" {
+			cls := ""
+			for _, o := range got.Obs {
+				cls += o.Class + " "
+				if len(cls) > 60 {
+					break
+				}
+			}
+			fmt.Fprintf(os.Stderr, "chunks: T=%s n=%d parts=%d cuts=%v deliveries=%d reads=%d obs=%d [%s]\n", f.T, n, len(f.Parts), f.Cuts, len(del), got.Reader.Reads, len(got.Obs), cls)
+		}
+		c.checkCommon(got, del)
+		c.compareRef(got, del, -1)
+		if len(del) > 1 {
+			// the same with end of input reported together with the last piece
+			d2 := append([]plan.Deliver(nil), del...)
+			d2[len(d2)-1].Err = "eof"
+			got = c.run(d2)
+			c.checkCommon(got, d2)
+			c.compareRef(got, d2, -1)
+			// and a transient reader error in the middle of the document
+			d3 := append([]plan.Deliver(nil), del[:len(del)*2/3]...)
+			d3 = append(d3, plan.Deliver{N: 0, Err: "transient"})
+			got = c.run(d3)
+			c.checkCommon(got, d3)
+			c.readerErrorRule(got, d3)
+		}
 	case "cutlist":
 		faultFree(cutsToDel(f.Cuts, false, false))
 		faultFree(cutsToDel(f.Cuts, true, true))
 	case "err1":
-		for p := 0; p <= n; p++ {
+		// every byte position; for long documents (thorough tier only) a
+		// strided subset, so that one family stays well inside the step budget
+		stride := 1
+		if n > 3000 {
+			stride = n/3000 + 1
+		}
+		for p := 0; p <= n; p += stride {
 			var del []plan.Deliver
 			if p > 0 {
 				del = append(del, plan.Deliver{N: p})
